@@ -81,7 +81,7 @@ func (f *frame) staticCall(in ssa.Instruction, callee *ssa.Function, args, binds
 	if inScope && callee.Blocks != nil {
 		if f.depth < inlineMaxDepth && w.inlinable(callee) && !f.onStack(callee) {
 			e.inlined[funcKey(callee)]++
-			rets, rpc, rh, _ := e.exec(callee, args, binds, pc, h.clone(), nm+"/", false, f.depth+1, nil, f.tags, f.safety)
+			rets, rpc, rh, _ := e.execP(f, callee, args, binds, pc, h.clone(), nm+"/", false, f.depth+1, nil, f.tags, f.safety)
 			*h = *rh
 			if rpc == "false" {
 				return false
@@ -99,9 +99,18 @@ func (f *frame) staticCall(in ssa.Instruction, callee *ssa.Function, args, binds
 		// in-package callee without contract, not inlinable: implicit contract (non-nil pointer params), havoc what it may modify
 		e.unmod[funcKey(callee)]++
 		for i, p := range callee.Params {
-			if _, isP := under(p.Type()).(*types.Pointer); isP && i < len(args) {
+			if i >= len(args) {
+				break
+			}
+			switch under(p.Type()).(type) {
+			case *types.Pointer:
 				if pv, ok := args[i].(PtrV); ok && pv.L.Kind == LObj && !strings.HasPrefix(pv.L.Ref, "|alloc") && !strings.HasPrefix(pv.L.Ref, "(sub ") {
 					e.ob(f, "pre", "implicit:"+funcKey(callee)+":"+p.Name()+"!=nil", f.safety, pc, fmt.Sprintf("(not (= %s 0))", pv.L.Ref), pos)
+				}
+			case *types.Interface, *types.Signature:
+				t := e.scalar(args[i])
+				if !strings.HasPrefix(t, "|alloc") && !strings.HasPrefix(t, "(mkiface") {
+					e.ob(f, "pre", "implicit:"+funcKey(callee)+":"+p.Name()+"!=nil", f.safety, pc, fmt.Sprintf("(not (= %s 0))", t), pos)
 				}
 			}
 		}
@@ -126,24 +135,335 @@ func (f *frame) onStack(fn *ssa.Function) bool {
 }
 
 // resultVal is an unconstrained call result. Pointers returned by unknown code are not assumed non-nil.
+// The callee may have allocated: the watermark moves, and whatever it returns exists now.
 func (f *frame) resultVal(nm string, t types.Type) Val {
-	return f.e.havocVal(nm, t)
+	e := f.e
+	v := e.havocVal(nm, t)
+	m := e.bumpWater(nm)
+	var bound func(v Val, t types.Type)
+	bound = func(v Val, t types.Type) {
+		switch x := v.(type) {
+		case PtrV:
+			if x.L.Kind == LObj {
+				e.assume(fmt.Sprintf("(<= %s %s)", x.L.Ref, m))
+			}
+		case SliceV:
+			e.assume(fmt.Sprintf("(<= %s %s)", x.B, m))
+		case Sc:
+			if sortOf(t) == "Int" && !isInt(t) {
+				e.assume(fmt.Sprintf("(<= %s %s)", x.T, m))
+			}
+		case TupleV:
+			if tt, ok := t.(*types.Tuple); ok {
+				for i, y := range x {
+					bound(y, tt.At(i).Type())
+				}
+			}
+		case StructV:
+			if st, ok := under(t).(*types.Struct); ok {
+				for i, y := range x.F {
+					bound(y, st.Field(i).Type())
+				}
+			}
+		}
+	}
+	bound(v, t)
+	return v
 }
 
 func (f *frame) havocMods(h *Heap, mods map[string]bool, all bool) {
+	f.havocModsT(h, mods, all, nil, nil)
+}
+
+// havocModsT havocs what a call may modify. touched (component -> object refs), when non-nil for a component,
+// restricts the change of that component to those objects. Storage this function allocated and never let
+// escape cannot be reached by the callee and keeps its contents.
+func (f *frame) havocModsT(h *Heap, mods map[string]bool, all bool, touched map[string][]string, except map[string]bool) {
 	e := f.e
+	before := map[string]string{}
+	for k, v := range h.m {
+		before[k] = v
+	}
 	if all {
 		e.havocAll(h)
+	} else {
+		var ks []string
+		for k := range mods {
+			ks = append(ks, k)
+		}
+		sort.Strings(ks)
+		for _, k := range ks {
+			if touched != nil {
+				if _, isT := touched[k]; isT {
+					continue
+				}
+				if tp, ok := touchedTypePrefix(touched, k); ok && tp {
+					continue // component of a touched struct type that has no touched object: unchanged
+				}
+			}
+			e.havocHeapComp(h, k)
+		}
+	}
+	for k, refs := range touched {
+		if !all && !mods[k] && !modsPattern(mods, k) {
+			continue
+		}
+		so, ok := e.comps[k]
+		if !ok {
+			continue
+		}
+		old := before[k]
+		if old == "" {
+			old = e.initial(k)
+		}
+		elem := strings.TrimSuffix(strings.TrimPrefix(so, "(Array Int "), ")")
+		t := old
+		for _, r := range refs {
+			t = fmt.Sprintf("(store %s %s %s)", t, r, e.fresh("Hobj."+k, elem))
+		}
+		h.m[k] = e.define("H."+k, so, t)
+		h.dirty[k] = true
+	}
+	f.keepPrivate(h, before, except)
+}
+
+// touchedOf evaluates the contract's touches clause in the function's entry state.
+func (f *frame) touchedOf() (map[string][]string, map[string]bool) {
+	if f.con == nil || len(f.con.Touches) == 0 {
+		return nil, nil
+	}
+	if f.touched != nil {
+		return f.touched, f.touchedTypes
+	}
+	e := f.e
+	env := f.specEnv(f.entry, nil, nil)
+	f.touched = map[string][]string{}
+	f.touchedTypes = map[string]bool{}
+	for _, tc := range f.con.Touches {
+		if tc.Expr == nil {
+			continue
+		}
+		v, _ := e.eval(env, tc.Expr)
+		if pv, ok := v.(PtrV); ok && pv.L.Kind == LObj {
+			var pairs [][2]string
+			e.objComps(pv.L, &pairs)
+			for _, p := range pairs {
+				f.touched[p[0]] = append(f.touched[p[0]], p[1])
+				f.touchedTypes[typePrefixOf(p[0])] = true
+			}
+		} else {
+			e.specErr("touches: %s is not an object", tc.Src)
+		}
+	}
+	return f.touched, f.touchedTypes
+}
+
+// frameObs: among pre-existing objects of the touched struct types, only the touched ones differ between two heaps.
+func (f *frame) frameObs(kind string, pc string, from, to *Heap, pos token.Pos) {
+	e := f.e
+	touched, tys := f.touchedOf()
+	if touched == nil {
 		return
 	}
 	var ks []string
-	for k := range mods {
-		ks = append(ks, k)
+	for k := range e.comps {
+		if strings.HasPrefix(k, "F.") && tys[typePrefixOf(k)] {
+			ks = append(ks, k)
+		}
 	}
 	sort.Strings(ks)
 	for _, k := range ks {
-		e.havocHeapComp(h, k)
+		cur, has := to.m[k]
+		old, had := from.m[k]
+		if !had {
+			if from.pending(k) {
+				continue
+			}
+			old = e.initial(k)
+		}
+		if !has || cur == old {
+			continue
+		}
+		e.n++
+		bv := q(fmt.Sprintf("r?%d", e.n))
+		var ne []string
+		for _, r := range touched[k] {
+			ne = append(ne, fmt.Sprintf("(not (= %s %s))", bv, r))
+		}
+		e.useQuant = true
+		cond := fmt.Sprintf("(forall ((%s Int)) (=> (and (<= %s pre) %s) (= (select %s %s) (select %s %s))))", bv, bv, and(ne...), cur, bv, old, bv)
+		e.ob(f, kind, "touches: only the named objects change in "+k, f.tags, pc, cond, pos)
 	}
+}
+
+func modsPattern(mods map[string]bool, k string) bool {
+	for m := range mods {
+		if strings.HasSuffix(m, "*") && strings.HasPrefix(k, strings.TrimSuffix(m, "*")) {
+			return true
+		}
+	}
+	return false
+}
+
+// touchedTypePrefix: k belongs to a struct type some touched object has (so it is covered by the touches clause).
+func touchedTypePrefix(touched map[string][]string, k string) (bool, bool) {
+	if !strings.HasPrefix(k, "F.") {
+		return false, false
+	}
+	tp := typePrefixOf(k)
+	for tk := range touched {
+		if typePrefixOf(tk) == tp {
+			return true, true
+		}
+	}
+	return false, false
+}
+
+func typePrefixOf(comp string) string {
+	// F.<type>.<field...>: the type name may itself contain dots (P.mcap.Lexer); fields never start with "P."
+	rest := strings.TrimPrefix(comp, "F.")
+	parts := strings.Split(rest, ".")
+	// type = leading "P" markers + package + name
+	i := 0
+	for i < len(parts) && parts[i] == "P" {
+		i++
+	}
+	if i+1 < len(parts) {
+		return strings.Join(parts[:i+2], ".")
+	}
+	return rest
+}
+
+// keepPrivate re-asserts the contents of this execution's non-escaping allocations after a havoc.
+// except: components the havoc legitimately covers (own stores of a loop body).
+func (f *frame) keepPrivate(h *Heap, before map[string]string, except map[string]bool) {
+	e := f.e
+	for fr := f; fr != nil; fr = fr.parent {
+		for _, a := range fr.privateAllocs() {
+			v, ok := fr.vals[a]
+			if !ok {
+				continue
+			}
+			pv, ok := v.(PtrV)
+			if !ok || pv.L.Kind != LObj {
+				continue
+			}
+			if _, isArr := under(pv.L.T).(*types.Array); isArr {
+				continue
+			}
+			var pairs [][2]string
+			e.objComps(pv.L, &pairs)
+			for _, p := range pairs {
+				k, r := p[0], p[1]
+				if except != nil && except[k] {
+					continue
+				}
+				old, had := before[k]
+				cur, has := h.m[k]
+				if !had || (has && cur == old) {
+					continue
+				}
+				if !has {
+					// pending havoc: materialise the new version now so that the kept entry can be stated
+					cur = e.fresh("Hv."+k, e.comps[k])
+					h.m[k] = cur
+					h.dirty[k] = true
+				}
+				e.assume(fmt.Sprintf("(= (select %s %s) (select %s %s))", cur, r, old, r))
+			}
+		}
+	}
+}
+
+// privateAllocs: allocations of the function whose address never leaves it (static escape analysis).
+func (f *frame) privateAllocs() []*ssa.Alloc {
+	if f.privAllocs != nil {
+		return f.privAllocs
+	}
+	f.privAllocs = []*ssa.Alloc{}
+	for _, b := range f.fn.Blocks {
+		for _, ins := range b.Instrs {
+			if a, ok := ins.(*ssa.Alloc); ok && !escapes(a, map[ssa.Value]bool{}) {
+				f.privAllocs = append(f.privAllocs, a)
+			}
+		}
+	}
+	return f.privAllocs
+}
+
+// escapes: may the pointer v (or one derived from it) become known to code outside this function?
+func escapes(v ssa.Value, seen map[ssa.Value]bool) bool {
+	if seen[v] {
+		return false
+	}
+	seen[v] = true
+	refs := v.Referrers()
+	if refs == nil {
+		return true
+	}
+	for _, r := range *refs {
+		switch x := r.(type) {
+		case *ssa.DebugRef:
+		case *ssa.UnOp:
+			// load through the pointer: the loaded value is not the pointer
+		case *ssa.Store:
+			if x.Val == v {
+				return true
+			}
+		case *ssa.FieldAddr:
+			if escapes(x, seen) {
+				return true
+			}
+		case *ssa.IndexAddr:
+			if escapes(x, seen) {
+				return true
+			}
+		case *ssa.MakeClosure:
+			if closureEscapes(x) {
+				return true
+			}
+		case ssa.CallInstruction:
+			c := x.Common()
+			if b, ok := c.Value.(*ssa.Builtin); ok {
+				switch b.Name() {
+				case "len", "cap", "copy", "print", "println":
+					continue
+				}
+			}
+			return true
+		default:
+			return true
+		}
+	}
+	return false
+}
+
+// closureEscapes: the closure is only called here or handed to sort natives (which call it and drop it).
+func closureEscapes(mc *ssa.MakeClosure) bool {
+	refs := mc.Referrers()
+	if refs == nil {
+		return true
+	}
+	for _, r := range *refs {
+		switch x := r.(type) {
+		case *ssa.DebugRef:
+		case ssa.CallInstruction:
+			c := x.Common()
+			if c.Value == mc {
+				continue
+			}
+			if callee := c.StaticCallee(); callee != nil {
+				switch calleeName(callee) {
+				case "sort.Slice", "sort.SliceStable":
+					continue
+				}
+			}
+			return true
+		default:
+			return true
+		}
+	}
+	return false
 }
 
 func isExitFunc(fn *ssa.Function) bool {
@@ -191,9 +511,30 @@ func (f *frame) applyContract(in ssa.Instruction, callee *ssa.Function, con *Con
 	pre := h.clone()
 	env.old = pre
 	for _, c := range con.Requires {
-		t := e.evalBool(env, c.Expr)
-		e.ob(f, "pre", con.Key+": "+c.label(), c.tagsOr(f.safetyOr(con)), pc, t, pos)
-		e.assumeIf(pc, t)
+		ts, ls := e.conjuncts(env, c.Expr, "")
+		for i := range ts {
+			e.ob(f, "pre", strings.TrimPrefix(con.Key, "func ")+": "+c.clabel(ls[i]), c.tagsOr(f.safetyOr(con)), pc, ts[i], pos)
+			e.assumeIf(pc, ts[i])
+		}
+	}
+	var touched map[string][]string
+	if len(con.Touches) > 0 {
+		touched = map[string][]string{}
+		for _, tc := range con.Touches {
+			if tc.Expr == nil {
+				continue
+			}
+			v, _ := e.eval(env, tc.Expr)
+			if pv, ok := v.(PtrV); ok && pv.L.Kind == LObj {
+				var pairs [][2]string
+				e.objComps(pv.L, &pairs)
+				for _, p := range pairs {
+					touched[p[0]] = append(touched[p[0]], p[1])
+				}
+			} else {
+				e.specErr("touches: %s is not an object", tc.Src)
+			}
+		}
 	}
 	if con.HasMods {
 		m := map[string]bool{}
@@ -205,14 +546,20 @@ func (f *frame) applyContract(in ssa.Instruction, callee *ssa.Function, con *Con
 				m[k] = true
 			}
 		}
-		f.havocMods(h, m, all)
+		f.havocModsT(h, m, all, touched, nil)
 	} else if callee.Blocks != nil && e.w.inScope(callee) {
 		mods, all := e.w.modsOf(callee)
-		f.havocMods(h, mods, all)
+		f.havocModsT(h, mods, all, touched, nil)
 	} else {
-		f.havocMods(h, nil, true)
+		f.havocModsT(h, nil, true, touched, nil)
 	}
+
+	water := e.water()
+	env.water = water
 	var rets []Val
+	if resT == nil {
+		e.bumpWater(nm)
+	}
 	if resT != nil {
 		rv := f.resultVal(nm, resT)
 		f.setResult(in, rv)
@@ -369,7 +716,22 @@ func (f *frame) appendB(in ssa.Instruction, c *ssa.CallCommon, args []Val, pc st
 	if es < 1 {
 		es = 1
 	}
-	f.allocOb(pc, fmt.Sprintf("(ite %s 0 (* %d %s))", inPlace, es, newLen), in.Pos(), in)
+	constAdd := false
+	if sl, ok := c.Args[1].(*ssa.Slice); ok {
+		if al, ok := sl.X.(*ssa.Alloc); ok {
+			if _, isArr := under(al.Type().(*types.Pointer).Elem()).(*types.Array); isArr {
+				constAdd = true
+			}
+		}
+	}
+	if _, isC := strconvAtoi(addl); isC {
+		constAdd = true
+	}
+	if !constAdd {
+		// appending a constant number of elements grows the slice by amortised O(1) per executed statement:
+		// the total is bounded by the work done, not by a length field; only data-sized appends are bounded here
+		f.allocOb(pc, fmt.Sprintf("(ite %s 0 (* %d %s))", inPlace, es, newLen), in.Pos(), in)
+	}
 	// element contents
 	e.useQuant = true
 	for _, cs := range e.elemComps(et) {
@@ -377,15 +739,15 @@ func (f *frame) appendB(in ssa.Instruction, c *ssa.CallCommon, args []Val, pc st
 		arr := e.comp(h, name, so, true)
 		na := e.fresh("Happ."+name, fmt.Sprintf("(Array Int %s)", so))
 		oldRow := fmt.Sprintf("(select %s %s)", arr, a.B)
-		// kept prefix
-		e.assume(fmt.Sprintf("(forall ((i Int)) (! (=> (and (<= 0 i) (< i %s)) (= (select %s (+ %s i)) (select %s (+ %s i)))) :pattern ((select %s (+ %s i)))))", a.L, na, rO, oldRow, a.O, na, rO))
+		// kept prefix (absolute index j of the new backing array)
+		e.assume(fmt.Sprintf("(forall ((j Int)) (! (=> (and (<= %s j) (< j (+ %s %s))) (= (select %s j) (select %s (+ (- j %s) %s)))) :pattern ((select %s j))))", rO, rO, a.L, na, oldRow, rO, a.O, na))
 		// in place: everything outside the appended range is unchanged
 		e.assume(fmt.Sprintf("(=> %s (forall ((j Int)) (! (=> (or (< j (+ %s %s)) (>= j (+ %s %s))) (= (select %s j) (select %s j))) :pattern ((select %s j)))))", inPlace, a.O, a.L, a.O, newLen, na, oldRow, na))
-		if src != nil && len(e.elemComps(et)) >= 1 {
+		if src != nil {
 			srcRow := fmt.Sprintf("(select %s %s)", arr, src.B)
-			e.assume(fmt.Sprintf("(forall ((i Int)) (! (=> (and (<= 0 i) (< i %s)) (= (select %s (+ %s %s i)) (select %s (+ %s i)))) :pattern ((select %s (+ %s %s i)))))", addl, na, rO, a.L, srcRow, src.O, na, rO, a.L))
+			e.assume(fmt.Sprintf("(forall ((j Int)) (! (=> (and (<= (+ %s %s) j) (< j (+ %s %s))) (= (select %s j) (select %s (+ (- j (+ %s %s)) %s)))) :pattern ((select %s j))))", rO, a.L, rO, newLen, na, srcRow, rO, a.L, src.O, na))
 		} else if srcStr != "" && so == "Int" {
-			e.assume(fmt.Sprintf("(forall ((i Int)) (! (=> (and (<= 0 i) (< i %s)) (= (select %s (+ %s %s i)) (sat %s i))) :pattern ((select %s (+ %s %s i)))))", addl, na, rO, a.L, srcStr, na, rO, a.L))
+			e.assume(fmt.Sprintf("(forall ((j Int)) (! (=> (and (<= (+ %s %s) j) (< j (+ %s %s))) (= (select %s j) (sat %s (- j (+ %s %s))))) :pattern ((select %s j))))", rO, a.L, rO, newLen, na, srcStr, rO, a.L, na))
 		}
 		e.setComp(h, name, fmt.Sprintf("(store %s %s %s)", arr, rB, na))
 	}
@@ -422,13 +784,27 @@ func (f *frame) copyB(in ssa.Instruction, c *ssa.CallCommon, args []Val, pc stri
 		e.assume(fmt.Sprintf("(forall ((j Int)) (! (=> (or (< j %s) (>= j (+ %s %s))) (= (select %s j) (select %s j))) :pattern ((select %s j))))", dst.O, dst.O, n, na, oldRow, na))
 		if src != nil {
 			srcRow := fmt.Sprintf("(select %s %s)", arr, src.B)
-			e.assume(fmt.Sprintf("(forall ((i Int)) (! (=> (and (<= 0 i) (< i %s)) (= (select %s (+ %s i)) (select %s (+ %s i)))) :pattern ((select %s (+ %s i)))))", n, na, dst.O, srcRow, src.O, na, dst.O))
+			e.assume(fmt.Sprintf("(forall ((j Int)) (! (=> (and (<= %s j) (< j (+ %s %s))) (= (select %s j) (select %s (+ (- j %s) %s)))) :pattern ((select %s j))))", dst.O, dst.O, n, na, srcRow, dst.O, src.O, na))
 		} else if srcStr != "" && so == "Int" {
-			e.assume(fmt.Sprintf("(forall ((i Int)) (! (=> (and (<= 0 i) (< i %s)) (= (select %s (+ %s i)) (sat %s i))) :pattern ((select %s (+ %s i)))))", n, na, dst.O, srcStr, na, dst.O))
+			e.assume(fmt.Sprintf("(forall ((j Int)) (! (=> (and (<= %s j) (< j (+ %s %s))) (= (select %s j) (sat %s (- j %s)))) :pattern ((select %s j))))", dst.O, dst.O, n, na, srcStr, dst.O, na))
 		}
 		e.setComp(h, name, fmt.Sprintf("(store %s %s %s)", arr, dst.B, na))
 	}
 	f.setResult(in, Sc{n})
+}
+
+func strconvAtoi(s string) (int, bool) {
+	n := 0
+	if s == "" {
+		return 0, false
+	}
+	for _, c := range s {
+		if c < '0' || c > '9' {
+			return 0, false
+		}
+		n = n*10 + int(c-'0')
+	}
+	return n, true
 }
 
 // ---------- invokes and dynamic calls ----------
@@ -449,6 +825,17 @@ func ifaceMethodKey(c *ssa.CallCommon) string {
 func (f *frame) invoke(in ssa.Instruction, c *ssa.CallCommon, recv Val, args []Val, pc string, h *Heap, nm string, resT types.Type) bool {
 	e := f.e
 	r := e.scalar(recv)
+	// devirtualise: the receiver was built by MakeInterface from a type of the verified packages
+	if info, ok := e.ifaces[r]; ok {
+		if m := e.w.prog.LookupMethod(info.Dyn, c.Method.Pkg(), c.Method.Name()); m != nil && e.w.inScope(m) && m.Blocks != nil {
+			target := m
+			recvArg := info.P
+			// promoted/wrapper methods: call the declared method when the receiver shapes agree
+			if len(target.Params) == len(args)+1 {
+				return f.staticCall(in, target, append([]Val{recvArg}, args...), nil, pc, h, nm, resT, in.Pos())
+			}
+		}
+	}
 	f.safetyOb("nopanic:nil", pc, fmt.Sprintf("(not (= %s 0))", r), in.Pos(), in)
 	key := ifaceMethodKey(c)
 	// methods by name, whatever interface they are invoked through
@@ -534,6 +921,8 @@ func (e *Engine) staticLoc(addr ssa.Value) *Loc {
 type modSet struct {
 	m   map[string]bool
 	all bool
+	// own: the set is for the function's own execution (loop frames): stores into storage it allocated count too
+	own bool
 }
 
 func (w *World) instrMods(e *Engine, fn *ssa.Function, ins ssa.Instruction, out *modSet, stack map[*ssa.Function]bool) {
@@ -550,6 +939,9 @@ func (w *World) instrMods(e *Engine, fn *ssa.Function, ins ssa.Instruction, out 
 		if _, isG := in.Addr.(*ssa.Global); isG {
 			return
 		}
+		if !out.own && freshRooted(in.Addr) {
+			return // a store into an object this function allocated does not change any pre-existing object
+		}
 		if l := e.staticLoc(in.Addr); l != nil {
 			// stores to the function's own non-escaping locals are invisible outside, but naming them is harmless
 			e.storeComps(l, out.m)
@@ -559,26 +951,31 @@ func (w *World) instrMods(e *Engine, fn *ssa.Function, ins ssa.Instruction, out 
 	case *ssa.MapUpdate:
 		n := "M." + tname(in.Map.Type())
 		out.m[n+".dom"], out.m[n+".val"], out.m[n+".card"] = true, true, true
-	case *ssa.MakeMap:
-		n := "M." + tname(in.Type())
-		out.m[n+".dom"], out.m[n+".card"] = true, true
-	case *ssa.Alloc:
-		pt := in.Type().(*types.Pointer)
-		if at, ok := under(pt.Elem()).(*types.Array); ok {
-			if sortOf(at.Elem()) != "" {
-				out.m["E."+tname(at.Elem())] = true
+	case *ssa.Alloc, *ssa.MakeSlice, *ssa.Convert, *ssa.MakeMap:
+		// fresh storage: invisible to pre-existing objects
+		if out.own {
+			switch x := in.(type) {
+			case *ssa.Alloc:
+				pt := x.Type().(*types.Pointer)
+				if at, ok := under(pt.Elem()).(*types.Array); ok {
+					if sortOf(at.Elem()) != "" {
+						out.m["E."+tname(at.Elem())] = true
+					}
+				} else {
+					e.storeComps(&Loc{Kind: LObj, Ref: "_", T: pt.Elem()}, out.m)
+				}
+			case *ssa.MakeSlice:
+				if et := under(x.Type()).(*types.Slice).Elem(); sortOf(et) != "" {
+					out.m["E."+tname(et)] = true
+				}
+			case *ssa.Convert:
+				if st, ok := under(x.Type()).(*types.Slice); ok && isStr(x.X.Type()) {
+					out.m["E."+tname(st.Elem())] = true
+				}
+			case *ssa.MakeMap:
+				n := "M." + tname(x.Type())
+				out.m[n+".dom"], out.m[n+".card"] = true, true
 			}
-		} else {
-			e.storeComps(&Loc{Kind: LObj, Ref: "_", T: pt.Elem()}, out.m)
-		}
-	case *ssa.MakeSlice:
-		et := under(in.Type()).(*types.Slice).Elem()
-		if sortOf(et) != "" {
-			out.m["E."+tname(et)] = true
-		}
-	case *ssa.Convert:
-		if st, ok := under(in.Type()).(*types.Slice); ok && isStr(in.X.Type()) {
-			out.m["E."+tname(st.Elem())] = true
 		}
 	case ssa.CallInstruction:
 		c := in.Common()
@@ -672,6 +1069,33 @@ func (w *World) instrMods(e *Engine, fn *ssa.Function, ins ssa.Instruction, out 
 	}
 }
 
+// freshRooted: the address is (a field or element of) storage allocated by this very function.
+func freshRooted(addr ssa.Value) bool {
+	for {
+		switch a := addr.(type) {
+		case *ssa.FieldAddr:
+			addr = a.X
+		case *ssa.IndexAddr:
+			switch x := a.X.(type) {
+			case *ssa.MakeSlice:
+				return true
+			case *ssa.Slice:
+				addr = x.X
+			default:
+				addr = a.X
+			}
+		case *ssa.Slice:
+			addr = a.X
+		case *ssa.Alloc:
+			return true
+		case *ssa.MakeSlice:
+			return true
+		default:
+			return false
+		}
+	}
+}
+
 func closureSource(v ssa.Value) *ssa.Function {
 	switch x := v.(type) {
 	case *ssa.MakeClosure:
@@ -715,16 +1139,24 @@ func (w *World) modsOfS(fn *ssa.Function, stack map[*ssa.Function]bool) (map[str
 	return out.m, out.all
 }
 
-func (w *World) loopMods(fn *ssa.Function, li *loopInfo) (map[string]bool, bool) {
+func (w *World) loopMods(fn *ssa.Function, li *loopInfo) (map[string]bool, map[string]bool, bool) {
 	e := newEngine(w, fn)
 	e.quiet = true
-	out := &modSet{m: map[string]bool{}}
+	out := &modSet{m: map[string]bool{}, own: true}
+	own := &modSet{m: map[string]bool{}, own: true}
 	for b := range li.blocks {
 		for _, ins := range b.Instrs {
 			w.instrMods(e, fn, ins, out, map[*ssa.Function]bool{fn: false})
+			// the body's own writes: everything except what calls to functions with bodies or contracts do
+			if ci, isCall := ins.(ssa.CallInstruction); isCall {
+				if _, isB := ci.Common().Value.(*ssa.Builtin); !isB {
+					continue
+				}
+			}
+			w.instrMods(e, fn, ins, own, map[*ssa.Function]bool{fn: false})
 		}
 	}
-	return out.m, out.all
+	return out.m, own.m, out.all
 }
 
 // implMods: union of the effects of the in-scope implementations of an interface method.
